@@ -94,7 +94,7 @@ func init() {
 		trs := pick(c, []uint8{0, 1, 2, 3, 4, 5, 62, 63}, allTR())
 		fam := &HistFamily{
 			Nmax:  pick(c, 9, 10),
-			Insts: stdInsts(trs, []string{"all", "even", "none"}),
+			Insts: append(stdInsts(trs, []string{"all", "even", "none"}), flagOffInsts()...),
 			Or:    HistOracle{Roots: true, Prop: "C01"},
 		}
 		c.Cov.Rule = "explicit-state BFS over block histories (every deletion subset of the live leaves x every addition count with N<=Nmax), each transition replayed on fresh Stump/Pollard/MapPollard instances and compared with the reference forest; non-trivial = distinct concrete state with at least one dead leaf"
@@ -155,7 +155,7 @@ func init() {
 		// states reached through an Undo are reachable states too
 		nu := pick(c, 4, 5)
 		c.Cov.Bound["undo_family.Nmax"] = nu
-		BFS(c, &HistFamily{Nmax: nu, Insts: stdInsts(pick(c, []uint8{0, 63}, []uint8{0, 3, 63}), []string{"all", "even"})[1:], Or: HistOracle{Proofs: true, Prop: "C02"}, UndoBud: 1, PermLimit: 2}, 0)
+		BFS(c, &HistFamily{Nmax: nu, Insts: append(stdInsts(pick(c, []uint8{0, 63}, []uint8{0, 3, 63}), []string{"all", "even"})[1:], flagOffInsts()...), Or: HistOracle{Proofs: true, Prop: "C02"}, UndoBud: 1, PermLimit: 2}, 0)
 		// a FULL map forest started from the bare roots of a reachable state and evolved further
 		// (blocks, Verify(remember), Undo): its tracked leaves must be provable canonically
 		nf := pick(c, 3, 4)
@@ -184,7 +184,7 @@ func init() {
 		trsB := pick(c, []uint8{0, 3, 63}, []uint8{0, 2, 3, 63})
 		famB := &HistFamily{
 			Nmax:    pick(c, 4, 5),
-			Insts:   stdInsts(trsB, []string{"all", "even", "none"}),
+			Insts:   append(stdInsts(trsB, []string{"all", "even", "none"}), flagOffInsts()...),
 			Or:      HistOracle{Lookups: true, Prop: "C10"},
 			UndoBud: 1,
 			RTBud:   1,
@@ -224,7 +224,7 @@ func init() {
 		nrev := pick(c, 4, 5)
 		c.Cov.Bound["descending_targets"] = fmt.Sprintf("Nmax=%d, undo budget 2, verify budget 1", nrev)
 		if !c.Expired() {
-			BFS(c, &HistFamily{Nmax: nrev, Insts: revInsts(false), Or: HistOracle{Roots: true, Proofs: true, Lookups: true, Prop: "C06", OnlyAfter: "undo", ProofSets: "small"}, UndoBud: 2, VerBud: 1, PermLimit: 2}, 0)
+			BFS(c, &HistFamily{Nmax: nrev, Insts: append(revInsts(false), flagOffInsts()...), Or: HistOracle{Roots: true, Proofs: true, Lookups: true, Prop: "C06", OnlyAfter: "undo", ProofSets: "small"}, UndoBud: 2, VerBud: 1, PermLimit: 2}, 0)
 		}
 		// partial forests started from the bare roots of large accumulators (rows up to 63): after
 		// every undo the stored positions, the cached-leaf table and every proof must be those of
